@@ -49,10 +49,64 @@ def carry_kernels(crate):
                 probs += _check_carry_var(b, cl, uses, mul=(b.trait == "Mul"))
         else:
             probs += _check_overflowing_style(b, steps)
+        probs += _every_iteration_steps(b, [s[0] for s in steps])
         res.append((b, b.key, "violation" if probs else "pass",
                     "; ".join(dict.fromkeys(probs)) if probs else
-                    "%d word steps, carry threaded (%s style)" % (len(steps), "cadd/csub" if steps[0][1] == "c" else "overflowing_*")))
+                    "%d word steps, carry threaded (%s style), performed on every iteration of their loop"
+                    % (len(steps), "cadd/csub" if steps[0][1] == "c" else "overflowing_*")))
     return res
+
+
+def _every_iteration_steps(b, step_blocks):
+    """each word step is executed on every iteration of its innermost loop: no data-dependent `break` / `continue`
+    can skip it (a skipped step drops a partial product or a carry)"""
+    probs = []
+    loops = b.loops()
+    for sblk in step_blocks:
+        inner = None
+        for hdr, body in loops:
+            if sblk in body and (inner is None or len(body) < len(inner[1])):
+                inner = (hdr, body)
+        if inner is None:
+            probs.append("a word step is not inside a loop")
+            continue
+        hdr, body = inner
+        # body entry: the successor(s) of the block that switches on next()'s discriminant inside the loop and stays inside
+        entries = []
+        for x in body:
+            t = b.term(x)
+            if t["t"] == "switch":
+                e, m = b.switch_cond(x)
+                if e[0] == "discr" and is_call(e[1], ("next", "next_back")):
+                    for s_ in b.succ[x]:
+                        if "1" in m.get(s_, []) and s_ in body:
+                            entries.append(s_)
+        if not entries:
+            # `while` loop: the loop condition's in-body successor
+            for sb, cond, ts, fs in guard.cond_edges(b):
+                if sb in body and b.block_dominates(sb, sblk):
+                    if ts in body and fs not in body:
+                        entries.append(ts)
+                    elif fs in body and ts not in body:
+                        entries.append(fs)
+        for ent in entries:
+            if ent == sblk:
+                continue
+            reach = b.reach_avoiding([ent], avoid_blocks=[sblk])
+            # steps of the same loop on alternative branches (e.g. two-phase add) all count
+            others = [x for x in step_blocks if x != sblk and x in body]
+            reach2 = b.reach_avoiding([ent], avoid_blocks=[sblk] + others)
+            if hdr in reach2:
+                probs.append("an iteration of the word loop can return to the loop header without performing the word step (`continue`/conditional skip)")
+            elif any((x not in body) for x in reach2 if b.term(x)["t"] != "unreachable" and not _is_panic_path(b, x)):
+                probs.append("the word loop can be left early without performing the word step (`break` on a data-dependent condition)")
+    return probs
+
+
+def _is_panic_path(b, blk):
+    """block from which no return is reachable (bounds-check / overflow panic continuation)"""
+    reach = b.reach_avoiding([blk])
+    return not any(b.term(x)["t"] == "ret" for x in reach)
 
 
 def _is_zero_const(e):
@@ -114,14 +168,17 @@ def _check_carry_var(b, cl, uses, mul):
 def _check_overflowing_style(b, steps):
     probs = []
     # carry variable = the mutable user var assigned from overflow flags
+    # the carry variable is found by its role: the mutable local passed as second operand of a word step whose first
+    # operand is a storage word
     carry_locals = set()
-    for l, d in enumerate(b.locals):
-        if d.get("name") == "carry":
-            carry_locals.add(l)
+    for bb, style, c, e, t in steps:
+        a0, a1 = e[3]
+        if a1[0] == "var" and len(a1) > 2 and mir.root_of(a0) == ("param", "self") and a0[0] == "index":
+            carry_locals.add(a1[2])
     if len(carry_locals) != 1:
-        return ["expected one carry variable, found %d" % len(carry_locals)]
+        return ["expected one carry variable threaded through the word steps, found %d" % len(carry_locals)]
     cl = list(carry_locals)[0]
-    cv = ("var", "carry", cl)
+    cv = ("var", b.local_name(cl), cl)
     defs = b.full_defs(cl)
     zero = [d for d in defs if _is_zero_const(b.e_def(d, 1, frozenset([cl])))]
     if len(zero) != 1:
@@ -333,10 +390,11 @@ def byref_twins(crate):
                 continue
             sa, sc = _slots_shift(a), _slots_shift(c)
             diffs = []
+            missing = []
             for slot in ("narrow", "l", "old_idx"):
                 va, vc = sa.get(slot), sc.get(slot)
                 if va is None or vc is None:
-                    diffs.append("slot %s not found (%s / %s)" % (slot, va, vc))
+                    missing.append("slot %s not found (%s / %s)" % (slot, va, vc))
                 elif _norm_self(va) != _norm_self(vc):
                     diffs.append("slot `%s` differs: by-reference %s vs in-place %s" % (slot, va, vc))
             # the main loop condition of the by-reference kernel must be one of the in-place kernel's
@@ -349,8 +407,11 @@ def byref_twins(crate):
             ec = _chunk_expr(c)
             if ea is None or ec is None or _norm_self(ea) != _norm_self(ec):
                 diffs.append("extracted chunk differs: %s vs %s" % (ea, ec))
+            if not diffs and missing:
+                res.append((a, key, "undecided", "twins are no longer comparable slot by slot: %s" % "; ".join(missing)))
+                continue
             res.append((a, key, "violation" if diffs else "pass",
-                        "; ".join(diffs) if diffs else "narrowing, loop condition, chunk length, old index and chunk agree"))
+                        "; ".join(missing + diffs) if diffs else "narrowing, loop condition, chunk length, old index and chunk agree"))
     a, c = find("<&Bvd as Not>::not"), find("<Bvd as Not>::not")
     if a is not None and c is not None:
         from . import mask as maskmod
@@ -404,7 +465,7 @@ def _len_spec():
 
     specs = [
         ("zeros/ones: length n", lambda b: b.trait == "BitVector" and b.name in ("zeros", "ones") and b.self_family in ("Bvf", "Bvd"),
-         lambda k, e, b: e == P("length")),
+         lambda k, e, b: e == P(b.local_name(1))),
         ("with_capacity: length 0", lambda b: b.trait == "BitVector" and b.name == "with_capacity" and b.self_family == "Bvd",
          lambda k, e, b: e == ("int", 0)),
         ("from_binary: chars(s)", lambda b: b.trait == "BitVector" and b.name == "from_binary" and b.self_family in ("Bvf", "Bvd"),
@@ -414,16 +475,16 @@ def _len_spec():
         ("from_bytes: 8*len(bytes)", lambda b: b.trait == "BitVector" and b.name == "from_bytes" and b.self_family in ("Bvf", "Bvd"),
          lambda k, e, b: is_bin(e, "Mul") and is_call(e[2], "len") and e[3] == ("int", 8)),
         ("read: len", lambda b: b.trait == "BitVector" and b.name == "read" and b.self_family in ("Bvf", "Bvd"),
-         lambda k, e, b: e == P("length")),
+         lambda k, e, b: e == P(b.local_name(2))),
         ("copy_range: e - s", lambda b: b.trait == "BitVector" and b.name == "copy_range" and b.self_family in ("Bvf", "Bvd"),
-         lambda k, e, b: is_bin(e, "Sub") and e[2] == ("field", P("range"), "end") and (
-             e[3] == ("field", P("range"), "start") or (is_call(e[3], "min") and set(e[3][3]) == {("field", P("range"), "start"), ("field", P("range"), "end")}))),
+         lambda k, e, b: is_bin(e, "Sub") and e[2] == ("field", P(b.local_name(2)), "end") and (
+             e[3] == ("field", P(b.local_name(2)), "start") or (is_call(e[3], "min") and set(e[3][3]) == {("field", P(b.local_name(2)), "start"), ("field", P(b.local_name(2)), "end")}))),
         ("push: len+1", lambda b: b.trait == "BitVector" and b.name == "push" and b.self_family in ("Bvf", "Bvd"),
          lambda k, e, b: e == ("bin", "Add", SELF_LEN, ("int", 1))),
         ("pop: len-1", lambda b: b.trait == "BitVector" and b.name == "pop" and b.self_family in ("Bvf", "Bvd"),
          lambda k, e, b: e == ("bin", "Sub", SELF_LEN, ("int", 1))),
         ("resize: n", lambda b: b.trait == "BitVector" and b.name == "resize" and b.self_family in ("Bvf", "Bvd"),
-         lambda k, e, b: e == P("new_len")),
+         lambda k, e, b: e == P(b.local_name(2))),
         ("fresh result of a kernel: self.length", lambda b: b.self_family in ("Bvf", "Bvd") and (
             (b.trait in ("Shl", "Shr", "Not", "Mul") and b.loops()) or (b.trait == "Not")) and b.trait != "BitVector",
          lambda k, e, b: e == SELF_LEN),
@@ -438,7 +499,7 @@ def _len_spec():
         ("Clone: same length", lambda b: b.trait == "Clone" and b.self_family in ("Bvf", "Bvd"),
          lambda k, e, b: is_call(e, "clone") and e[3] == (SELF_LEN,)),
         ("new: the given length", lambda b: b.trait is None and b.name == "new" and b.self_family in ("Bvf", "Bvd"),
-         lambda k, e, b: e == P("length")),
+         lambda k, e, b: e == P(b.local_name(2))),
     ]
     return specs
 
@@ -524,8 +585,20 @@ def buffer_sizes(crate):
                     e = b.e_call(t)
                     if e[3][1] == want and is_call(e[3][0], "repeat"):
                         ok = True
+            how = "byte buffer has (%s + 7) / 8 bytes" % show(L)
+            if not ok and b.name == "to_vec":
+                # iterator form: every returned alternative is a chain bounded by take((len + 7) / 8)
+                ret = b.return_expr()
+                alts = ret[2] if ret[0] == "phi" else (ret,)
+                bounded = [any(is_call(x, "take") and len(x[3]) == 2 and x[3][1] == want for x in walk(a)) for a in alts]
+                if alts and all(bounded):
+                    ok = True
+                    how = "every returned byte stream is bounded by take((len + 7) / 8)"
+                elif any(bounded):
+                    how = ("only %d of %d returned byte streams are bounded by take((len + 7) / 8): the byte count of the others "
+                           "depends on something else (e.g. the allocation)" % (sum(bounded), len(alts)))
             res.append((b, "%s|buffer size" % b.key, "pass" if ok else "violation",
-                        "byte buffer has (%s + 7) / 8 bytes" % show(L) if ok else "no buffer of (len + 7) / 8 bytes found"))
+                        how if ok else (how if "only" in how else "no buffer / byte stream of (len + 7) / 8 bytes found")))
     return res
 
 
@@ -1171,6 +1244,7 @@ def to_vec_arms(crate):
             continue
         sb, m = sw
         arms = {}
+        undecided = []
         for s, vals in m.items():
             for v in vals:
                 if v in ("0", "1"):
@@ -1193,13 +1267,16 @@ def to_vec_arms(crate):
                     if root_of(e[3][0])[:2] == ("var", "buf"):
                         idxs.append(e[3][1])
             if not idxs:
-                probs.append("%s-endian arm writes no byte" % want)
+                undecided.append("%s-endian arm does not store bytes into an indexed buffer (unrecognised packing idiom)" % want)
                 continue
             for ix in idxs:
                 if want == "little" and ix[0] != "iv":
                     probs.append("little-endian arm stores byte i at `%s`, expected buf[i]" % show(ix))
                 if want == "big" and not (is_bin(ix, "Sub") and ix[3] == ("int", 1) and is_bin(ix[2], "Sub") and ix[2][3][0] == "iv"):
                     probs.append("big-endian arm stores byte i at `%s`, expected buf[n - i - 1]" % show(ix))
+        if undecided and not probs:
+            res.append((b, "%s|endianness arms" % b.key, "undecided", "; ".join(undecided)))
+            continue
         res.append((b, "%s|endianness arms" % b.key, "violation" if probs else "pass",
                     "; ".join(dict.fromkeys(probs)) if probs else "Little stores byte i at buf[i], Big at buf[n - i - 1]"))
     return res
@@ -1258,17 +1335,26 @@ def cloned_pairs(crate, methods=None):
             res.append((a or d, key, "violation", "one of the two copies is missing"))
             continue
         sa, sd = _named_slots(a, skip), _named_slots(d, skip)
-        diffs = []
+        diffs, missing = [], []
         for k in sorted(set(sa) | set(sd)):
             x, y = sa.get(k), sd.get(k)
+            if x is None or y is None:
+                missing.append(k)   # one copy was restructured: not comparable slot by slot
+                continue
             if k == "<branch conditions>":
                 # Bvf::resize has the capacity assertion, Bvd::resize the reserve call: compare the common part
                 x = [c for c in x if "capacity()" not in c]
                 y = [c for c in y if "capacity()" not in c]
+                if missing:
+                    continue
             if x != y:
                 diffs.append("slot `%s`: Bvf %s vs Bvd %s" % (k, x, y))
-        res.append((a, key, "violation" if diffs else "pass",
-                    "; ".join(diffs)[:600] if diffs else "%d named slots agree after I -> u64" % len(sa)))
+        if diffs:
+            res.append((a, key, "violation", "; ".join(diffs)[:600]))
+        elif missing:
+            res.append((a, key, "undecided", "the two copies no longer share the named slots %s: not comparable (no verdict)" % missing))
+        else:
+            res.append((a, key, "pass", "%d named slots agree after I -> u64" % len(sa)))
     if methods is None or "shifts" in methods:
         for ty in WORD_TYPES:
             for tr, m in (("ShlAssign", "shl_assign"), ("ShrAssign", "shr_assign")):
